@@ -107,6 +107,10 @@ class Adapter(EnvAdapter):
                 # solved exactly at the time limit (both end reasons on the same step) / one step before it
                 _scr("n3_t1_s1", 3, 1, 1, 4, 4, ["solve", "random"]),
                 _scr("n3_t3_s2", 3, 3, 2, 4, 6, ["solve", "random"], probe_every=2),
+                # even sizes: turning every layer about one axis rotates the whole cube; the result is a solved
+                # cube (every face of one colour) that differs from the reset cube
+                _scr("n2_t3_s0_rot", 2, 3, 0, 2, 5, ["rotate"]),
+                _scr("n4_t20_s0_rot", 4, 20, 0, 1, 7, ["rotate"], probe_every=4),
                 _scr("n4_t20_s7", 4, 20, 7, 3, 23, ["solve", "random", "random"], probe_every=5),
                 _scr("n5_t3_s100", 5, 3, 100, 4, 6, ["random"], probe_every=2),
             ]
@@ -124,6 +128,7 @@ class Adapter(EnvAdapter):
             pe = 1 if n < 4 else 3
             out += [
                 _scr(f"n{n}_t1_s0", n, 1, 0, 6, 4, ["random"]),
+                _scr(f"n{n}_t20_s0_rot", n, 20, 0, 2, n + 3, ["rotate"]),
                 _scr(f"n{n}_t3_s1", n, 3, 1, 24, 6, mix),
                 _scr(f"n{n}_t20_s7", n, 20, 7, 16, 23, mix, probe_every=pe),
                 _scr(f"n{n}_t3_s100", n, 3, 100, 12, 6, ["random"], probe_every=pe),
@@ -196,6 +201,13 @@ class Adapter(EnvAdapter):
         return ["random", "solve"]
 
     def choose(self, policy, env, state, obs, rng, i):
+        if policy == "rotate":
+            # every layer about the vertical axis, all in the same sense: a rotation of the whole cube when n is even
+            nd = self._n // 2
+            plan = [[0, d, 0] for d in range(nd)] + [[5, d, 1] for d in reversed(range(nd))]
+            if i < len(plan):
+                return np.asarray(plan[i], dtype=env.action_spec.dtype)
+            return self.random_actions(env, rng, 1)[0]
         if policy != "solve":
             return self.random_actions(env, rng, 1)[0]
         # undo the logged scramble (only a way to reach solved cubes on the main line; never a judge)
